@@ -250,7 +250,7 @@ fn g_i8(r: &mut Rng, lo: i64, hi: i64) -> i8 {
     }
 }
 
-pub const N_OPS: u64 = 78;
+pub const N_OPS: u64 = 81;
 
 /// Execute operation `op` on seeded arguments. Returns (api, args, result).
 pub fn exec(op: u64, r: &mut Rng, z: &Zones) -> (&'static str, String, Result<V, String>) {
@@ -756,6 +756,31 @@ pub fn exec(op: u64, r: &mut Rng, z: &Zones) -> (&'static str, String, Result<V,
         76 => {
             let (a, tz) = (g_zoned(r, z), r.pick(&z.tzs).clone());
             ("Zoned::with_time_zone", format!("{} {:?}", a, tz.iana_name()), Ok(V::Zoned(a.with_time_zone(tz))))
+        }
+        77 => {
+            // conversions to and from the standard library's unsigned duration, biased to the sub-second negatives
+            let d = match r.below(4) {
+                0 => SignedDuration::new(0, -(r.range(1, 999_999_999) as i32)),
+                1 => SignedDuration::new(-(r.range(0, 3)), -(r.range(0, 999_999_999) as i32)),
+                _ => g_sd(r),
+            };
+            ("std Duration::try_from(SignedDuration)", format!("{:?}", d), std::time::Duration::try_from(d).map(|u| V::Str(format!("{:?}", u))).map_err(|e| e.to_string()))
+        }
+        78 => {
+            let u = std::time::Duration::new(match r.below(3) {
+                0 => r.next(),
+                1 => i64::MAX as u64 + r.below(3) - 1,
+                _ => r.below(1 << 40),
+            }, r.below(1_000_000_000) as u32);
+            res!("SignedDuration::try_from(std Duration)", format!("{:?}", u), SignedDuration::try_from(u), V::Sd)
+        }
+        79 => {
+            let d = match r.below(3) {
+                0 => SignedDuration::new(0, -(r.range(1, 999_999_999) as i32)),
+                _ => g_sd(r),
+            };
+            let t = g_ts(r);
+            res!("Timestamp::checked_add(SignedDuration)", format!("{} {:?}", t, d), t.checked_add(d), V::Ts)
         }
         _ => {
             let (d, s) = (g_date(r), g_span(r, &gen::ALL_UNITS));
